@@ -11,6 +11,7 @@ import (
 	"unicode"
 	"unicode/utf8"
 
+	"github.com/ozontech/seq-db/conf"
 	"github.com/ozontech/seq-db/parser"
 	"github.com/ozontech/seq-db/seq"
 
@@ -566,5 +567,127 @@ func inOrCases(w *casefile.Writer, r *rng.R, n int) {
 			suffix = rng.Pick(r, pipeSuffixes)
 		}
 		inOrCase(w, rng.Pick(r, inFields), elems, r.Intn(4), suffix)
+	}
+}
+
+// ---------------------------------------------------------------- range bounds are normalised like literals
+
+var rangeFields = []string{"k", "p", "t", "m", "e", "_exists_", "n.x", "o", "k", "t"}
+var rangeBounds = []string{`Bob`, `'Bob'`, `"ALICE Smith"`, "`Carol`", "ÉCOLE", "\"Ünï Code\"", "ΣΑΣ", "\"İx\"", `"a\tB"`, `"\x41b"`,
+	`"Été"`, `*`, `10`, `-5`, `a-B_c.D`, `"X*"`, `"*"`, `"\*Z"`, "K", "ǅ", "\"Straße\"", `MiXeD123`, `""`, `'Q R'`, "`RAW Str`", `Z`}
+
+func termCoq(t parser.Term) string {
+	if t.Kind == parser.TermSymbol {
+		return "TmSym"
+	}
+	return "(TmText " + coqBytes(t.Data) + ")"
+}
+
+func lowTable(ss ...string) string {
+	seen := map[rune]bool{}
+	for _, s := range ss {
+		for i := 0; i < len(s); i++ {
+			r, _ := utf8.DecodeRuneInString(s[i:])
+			seen[r] = true
+		}
+	}
+	var rs []int
+	for r := range seen {
+		if unicode.ToLower(r) != r {
+			rs = append(rs, int(r))
+		}
+	}
+	sort.Ints(rs)
+	parts := make([]string, len(rs))
+	for i, x := range rs {
+		parts[i] = fmt.Sprintf("(%d, %d)", x, unicode.ToLower(rune(x)))
+	}
+	if len(parts) == 0 {
+		return "[]"
+	}
+	return "[" + strings.Join(parts, "; ") + "]%N"
+}
+
+func rangeCase(w *casefile.Writer, field, a, b, open, sep, cl string, cfg bool) {
+	lf := field
+	if field != "k" && field != "p" && field != "_exists_" && field != "n.x" {
+		lf = "k"
+	}
+	qr := field + ":" + open + a + sep + b + cl
+	qa, qb := lf+":"+a, lf+":"+b
+	in := map[string]any{"query": qr, "literal_from": qa, "literal_to": qb, "case_sensitive": cfg}
+	old := conf.CaseSensitive
+	conf.CaseSensitive = cfg
+	defer func() { conf.CaseSensitive = old }()
+	var roots [3]*parser.ASTNode
+	for i, q := range []string{qr, qa, qb} {
+		i, q := i, q
+		res := guarded(func() error {
+			sq, err := parser.ParseSeqQL(q, fuzzMapping)
+			if err == nil {
+				roots[i] = sq.Root
+			}
+			return err
+		})
+		w.Evals(1)
+		if res.hung || res.panicked != nil {
+			w.Violate("panic-or-hang:ParseSeqQL:range", fmt.Sprintf("ParseSeqQL panic=%v hung=%v", res.panicked, res.hung), map[string]any{"query": q})
+			return
+		}
+	}
+	implR, txtR := "None", "error"
+	if roots[0] != nil {
+		if rg, ok := roots[0].Value.(*parser.Range); ok {
+			implR = "(Some (" + termCoq(rg.From) + ", " + termCoq(rg.To) + "))"
+			txtR = roots[0].String()
+		}
+	}
+	lit := func(n *parser.ASTNode) (string, string) {
+		if n == nil {
+			return "None", "error"
+		}
+		l, ok := n.Value.(*parser.Literal)
+		if !ok {
+			return "None", "not a literal"
+		}
+		parts := make([]string, len(l.Terms))
+		for i, t := range l.Terms {
+			parts[i] = termCoq(t)
+		}
+		return "(Some [" + strings.Join(parts, "; ") + "])", n.String()
+	}
+	implA, txtA := lit(roots[1])
+	implB, txtB := lit(roots[2])
+	var toks []parser.VerifTok
+	for _, q := range []string{qr, qa, qb} {
+		lr, p, h := realLex(q)
+		if p != nil || h {
+			w.Violate("panic-or-hang:lexer", "lexer fails on a range query", in)
+			return
+		}
+		toks = append(toks, lr.toks...)
+	}
+	all := qr + " " + qa + " " + qb
+	var sb strings.Builder
+	for _, t := range toks {
+		sb.WriteString(t.Text)
+	}
+	folds := strings.ToLower(a+b) != a+b
+	if folds {
+		w.Count("range:bound-needs-folding")
+	}
+	w.Add(fmt.Sprintf("CRange %s %s %s %s %s %s %s %s %s", coqBytes(qr), coqBytes(qa), coqBytes(qb), classTable(all, toks), lowTable(all, sb.String()),
+		casefile.Bool(cfg), implR, implA, implB),
+		"range-bounds", folds && implR != "None", in, map[string]any{"range": txtR, "from": txtA, "to": txtB})
+}
+
+func rangeCases(w *casefile.Writer, r *rng.R, n int) {
+	for _, fx := range [][3]string{{"k", "*", "'Bob'"}, {"k", "Alice", "Bob"}, {"t", `"ALICE Smith"`, "`Carol`"}, {"_exists_", "Bob", "*"}, {"p", "ÉCOLE", "Z"}, {"m", `"X*"`, "Z"}} {
+		rangeCase(w, fx[0], fx[1], fx[2], "[", ", ", "]", false)
+		rangeCase(w, fx[0], fx[1], fx[2], "(", " to ", ")", true)
+	}
+	for i := 0; i < n; i++ {
+		rangeCase(w, rng.Pick(r, rangeFields), rng.Pick(r, rangeBounds), rng.Pick(r, rangeBounds),
+			rng.Pick(r, []string{"[", "(", "[ "}), rng.Pick(r, []string{", ", ",", " to ", " TO ", " , "}), rng.Pick(r, []string{"]", ")", " ]"}), r.Chance(1, 4))
 	}
 }
